@@ -110,6 +110,8 @@ class TermMixin:
             if ob.status is None:
                 ob.status = "discharged"
                 ob.reason = reason
+            elif ob.status == "discharged" and reason and reason not in ob.reason:
+                ob.reason += "; " + reason
         else:
             if ob.status != "open":
                 ob.status = "open"
@@ -331,6 +333,9 @@ class TermMixin:
                     if self._len_derived(st, exact):
                         ok = True
                         reason = "address-space axiom: sum of lengths of live objects"
+                    elif len(exact.t) == 1 and exact.t[0][1] == 1 and exact.t[0][0] in self.counters and 0 <= exact.c <= 65536:
+                        ok = True
+                        reason = "counter axiom: a 64-bit counter incremented by a small constant per loop iteration cannot overflow"
                 lo, hi = ty_range(w, sg)
                 self.obligation(fr, blk, "Overflow", "%s:%s%d" % (desc, "i" if sg else "u", w), ok, need="%d <= %s <= %d" % (lo, exact, hi), st=st, reason=reason)
                 # success edge: the result is in range
